@@ -33,3 +33,49 @@ SBuf Instance::NamePrefix(const char *const head, const char *const tail)
     if (tail) buf.append(tail);
     return buf;
 }
+
+// ---- closure of the IPC sources (DESIGN section 2: "about 40 undefined symbols") ---------------------------------
+// After compat/lib/base/debug/sbuf/mem/time only the following remain. The repo's src/tests/stub_*.cc that define
+// them (stub_store, stub_libstore, stub_HttpRequest, stub_libmgr, stub_comm, SquidConfig.cc, StatCounters.cc ...)
+// each pull a further closure (Ip::Address, MemBuf, cbdata, Http::Message, Ipc::Inquirer, StatHist ...), so they are
+// given here instead. None of them is reachable from the operations the drivers perform, except where noted.
+#include "comm.h"
+#include "event.h"
+#include "fd.h"
+#include "globals.h"
+#include "HttpRequest.h"
+#include "mgr/Registration.h"
+#include "SquidConfig.h"
+#include "StatCounters.h"
+#include "Store.h"
+#include "store/Controller.h"
+
+[[noreturn]] static void unreachable(const char *what) { vt::Die(std::string("harness:stub-called:") + what, std::string("a stubbed Squid function was called: ") + what); }
+
+// The global configuration and statistics objects. Their constructors need most of Squid (Ip::Address, Helper::ChildConfig,
+// StatHist ...); the IPC code only reads Config.shmLocking (Segment::lock) and Config.paranoid_hit_validation (off = zero)
+// and bumps statCounter.hitValidation (never reached with validation off). Zero-filled storage of the right size under the
+// variables' link names gives exactly "option unset" for both.
+alignas(64) unsigned char verif_Config_storage[sizeof(SquidConfig)] asm("Config");
+alignas(64) unsigned char verif_statCounter_storage[sizeof(StatCounters)] asm("statCounter");
+
+int KidIdentifier = 0;
+
+void storeAppendPrintf(StoreEntry *, const char *, ...) { unreachable("storeAppendPrintf"); }
+std::ostream &operator <<(std::ostream &os, const StoreEntry &) { return os << "[entry]"; }
+void StoreEntry::lock(const char *) { unreachable("StoreEntry::lock"); }
+int StoreEntry::unlock(const char *) { unreachable("StoreEntry::unlock"); }
+const SBuf HttpRequest::storeId() { unreachable("HttpRequest::storeId"); }
+
+// Anchor::setKey() asks the store controller whether the key is already marked for deletion (reachable: the C55
+// writer calls setKey() as Squid's callers do). No store here: nothing is marked.
+alignas(64) static unsigned char verif_root_storage[sizeof(Store::Controller)];
+Store::Controller &Store::Root() { return *reinterpret_cast<Store::Controller *>(verif_root_storage); }
+bool Store::Controller::markedForDeletion(const cache_key *) const { return false; }
+
+// referenced by libdebug / libmem start-up code that the engine never runs
+void fd_open(int, unsigned int, const char *) {}
+void fd_close(int) {}
+void commSetCloseOnExec(int) {}
+void eventAdd(const char *, EVH *, void *, double, int, bool) {}
+void Mgr::RegisterAction(char const *, char const *, OBJH *, Protected, Atomic, Format) {}
